@@ -275,6 +275,13 @@ var (
 )
 
 func c02Cases(rep *report, r *rng, sink *checkCaseSink, s *schemeOps, h, pw string, tier string) {
+	// thorough tier: the full sweeps for the first bases of a scheme and every 25th after them; the sampled ones for the
+	// rest (300 password lengths x 10 schemes x every digest position x every symbol does not finish in an hour)
+	nb, _ := rep.Distribution["c02_bases_"+s.name].(int)
+	rep.Distribution["c02_bases_"+s.name] = nb + 1
+	if tier == "thorough" && nb >= 8 && nb%25 != 0 {
+		tier = "quick"
+	}
 	exhaustive := tier == "thorough" || rep.Distribution["c02_exhaustive_"+s.name] == nil
 	if exhaustive {
 		rep.Distribution["c02_exhaustive_"+s.name] = 1
